@@ -51,6 +51,11 @@ func scribble(b []byte) {
 
 func (h *history) keepBytes(desc string, live []byte) {
 	snap := append([]byte(nil), live...)
+	// the caller owns the whole slice it was given, spare capacity included (append(result, …) is ordinary use):
+	// scribble over it; if it is shared with another result or a pooled buffer, a later audit shows it
+	if spare := live[len(live):cap(live)]; len(spare) > 0 {
+		scribble(spare)
+	}
 	h.add(desc, func() string {
 		if !bytes.Equal(live, snap) {
 			return fmt.Sprintf("bytes changed: now %s, were %s", hx(live), hx(snap))
@@ -84,6 +89,33 @@ func (h *history) keepPDU(desc string, t *pdus.Type, live sms.PDU) {
 		}
 		return ""
 	})
+}
+
+// keepFieldValues keeps the slice-typed field VALUES of a decoded PDU (the slice headers as the caller would hold
+// them), so that a later decode into the same PDU value can be seen to disturb them.
+func (h *history) keepFieldValues(desc string, t *pdus.Type, p sms.PDU) {
+	pv := reflect.ValueOf(p).Elem()
+	for _, f := range t.Lib().Fields {
+		fv := pv.FieldByName(f.Go)
+		switch f.Kind {
+		case "list":
+			live, _ := fv.Interface().([]string)
+			snap := append([]string(nil), live...)
+			name := f.Go
+			h.add(desc+" ."+name, func() string {
+				for i := range live {
+					if live[i] != snap[i] {
+						return fmt.Sprintf("%s[%d] handed out by the first decode now reads %q, was %q", name, i, live[i], snap[i])
+					}
+				}
+				return ""
+			})
+		case "body":
+			if live, ok := fv.Interface().([]byte); ok {
+				h.keepBytes(desc+" ."+f.Go, live)
+			}
+		}
+	}
 }
 
 func (h *history) keepTLVs(desc string, live any) {
@@ -147,7 +179,7 @@ func (h *history) step() bool {
 	var op string
 	ctx := context.Background()
 	pan, val, st := fw.Try(func() {
-		switch k := r.Intn(13); k {
+		switch k := r.Intn(15); k {
 		case 12: // an encode that must fail: the error path gives pooled buffers back too
 			cands := oversizeCandidates(h.ts)
 			oc := cands[r.Intn(len(cands))]
@@ -292,6 +324,19 @@ func (h *history) step() bool {
 			op = "String " + t.Key()
 			v, _ := pdus.Gen(lt, r, -1, 0)
 			h.keepString(op, pdus.Build(lt, v).String())
+		case 13: // decode twice into the SAME PDU value: what the first decode handed out must not change
+			op = "redecode " + t.Key()
+			v1, _ := pdus.Gen(t, r, -1, 0)
+			b1 := pdus.RefEncode(t, v1)
+			p := t.New()
+			if err := p.IDecode(b1); err == nil {
+				h.keepFieldValues(op, t, p)
+				v2, _ := pdus.Gen(t, r, -1, 0)
+				b2 := pdus.RefEncode(t, v2)
+				_ = p.IDecode(b2)
+				scribble(b2)
+			}
+			scribble(b1)
 		default: // SMGP submit with options: decoded from a caller buffer
 			st := h.ts.ByKey["smgp30.Submit/Submit"]
 			op = "decode " + st.Key() + " (with options)"
